@@ -41,6 +41,10 @@ CONSTANTS MaxOps,      \* length of the operation histories
           SeedNames,   \* subset of {"A","B","C"}: initial configurations
           Unflushed,   \* operation kinds that leave the RBAC caches alone
           AuthUnflushed, \* token operation kinds that leave AuthManager.cache alone (none as written)
+          ExpirePos,   \* history positions (Len(hist)) at which a token-data entry may expire and be swept
+          ExpireBefore,\* mutator kinds that may directly follow such an expiry
+          TeamScan,    \* TRUE (negative control): team mutators flush only the tokens whose cached
+                       \* token data references the team, instead of everything
           Emit         \* TRUE: print one TRACE line per history of length MaxOps
 
 Tokens == {"t1", "t2"}
@@ -78,12 +82,15 @@ VARIABLES org,    \* Orgs -> "absent" | "on" | "off"
           pcache, \* Tokens -> [valid, d]                        (RBACManager.permCache, whole matrix)
           obs,    \* Tokens -> [authn, d] : what the last round of checks answered
           phase,  \* "check" (a round of checks is due) | "mutate"
+          pending,\* token whose token-data entry was swept just now ("" if none): the next mutator
+                  \* runs before any further check (tokenCache and permCache have independent
+                  \* lifetimes: data loaded early is swept while decisions cached later live on)
           seed, hist, expect   \* generation only (hidden by the VIEW)
 
 tables == <<org, team, role, mp, mem, tok>>
 caches == <<ac, tc, pcache>>
-vars   == <<org, team, role, mp, mem, tok, ac, tc, pcache, obs, phase, seed, hist, expect>>
-view   == <<org, team, role, mp, mem, tok, ac, tc, pcache, obs, phase, Len(hist)>>
+vars   == <<org, team, role, mp, mem, tok, ac, tc, pcache, obs, phase, pending, seed, hist, expect>>
+view   == <<org, team, role, mp, mem, tok, ac, tc, pcache, obs, phase, pending, Len(hist)>>
 
 -----------------------------------------------------------------------------
 \* the policy, evaluated on a snapshot S = [team, role, mp, mine] and the token's own permissions
@@ -140,7 +147,7 @@ Init == /\ seed \in SeedNames
         /\ tc = [t \in Tokens |-> NoSnap]
         /\ pcache = [t \in Tokens |-> NoDec]
         /\ obs = [t \in Tokens |-> [authn |-> FALSE, d |-> [i \in 1..NReq |-> FALSE]]]
-        /\ phase = "check"
+        /\ phase = "check" /\ pending = ""
         /\ hist = <<>> /\ expect = <<>>
 
 -----------------------------------------------------------------------------
@@ -155,7 +162,16 @@ DropTeams(T) == /\ team' = TeamsGone(T)
                 /\ mp'   = MPsGone(RolesOfT(T), {})
                 /\ mem'  = {e \in mem : e[2] \notin T}
 
-Op(k, a, b, c, d) == [k |-> k, a |-> a, b |-> b, c |-> c, d |-> d]
+Op(k, a, b, c, d) == [k |-> k, a |-> a, b |-> b, c |-> c, d |-> d, x |-> pending]
+
+\* the token-data entry of t (loaded earlier than the decisions cached from it) expires and is
+\* removed by cleanupExpiredCache; the decisions stay.  The next mutator follows immediately.
+ExpireTokenData(t) ==
+    /\ phase = "mutate" /\ pending = "" /\ Len(hist) < MaxOps /\ Len(hist) \in ExpirePos
+    /\ tok[t].st = "on" /\ tc[t].valid /\ pcache[t].valid
+    /\ tc' = [tc EXCEPT ![t] = NoSnap]
+    /\ pending' = t
+    /\ UNCHANGED <<org, team, role, mp, mem, tok, ac, pcache, obs, phase, seed, hist, expect>>
 
 \* RBACManager.InvalidateAllCache / InvalidateTokenCache as called (or not) by the mutator
 FlushAll(k)      == IF k \in Unflushed THEN UNCHANGED <<tc, pcache>>
@@ -165,7 +181,15 @@ FlushToken(k, t) == IF k \in Unflushed THEN UNCHANGED <<tc, pcache>>
 \* AuthManager.InvalidateCache (every token mutator, both modes)
 FlushAuth(k)     == IF k \in AuthUnflushed THEN UNCHANGED ac ELSE ac' = [t \in Tokens |-> "none"]
 
-Log(o) == /\ hist' = (IF Emit THEN Append(hist, o) ELSE Append(hist, o.k)) /\ phase' = "check" /\ UNCHANGED <<obs, seed, expect>>
+\* what team mutators flush: everything as written; only tokens whose cached data names the team
+\* in the negative control
+FlushTeam(k, g) == IF ~TeamScan THEN FlushAll(k)
+                   ELSE /\ tc' = [t \in Tokens |-> IF tc[t].valid /\ g \in tc[t].mine THEN NoSnap ELSE tc[t]]
+                        /\ pcache' = [t \in Tokens |-> IF tc[t].valid /\ g \in tc[t].mine THEN NoDec ELSE pcache[t]]
+
+Log(o) == /\ pending = "" \/ o.k \in ExpireBefore
+          /\ hist' = (IF Emit THEN Append(hist, o) ELSE Append(hist, o.k)) /\ phase' = "check" /\ pending' = ""
+          /\ UNCHANGED <<obs, seed, expect>>
 
 CreateOrg(o) == /\ org[o] = "absent" /\ org' = [org EXCEPT ![o] = "on"]
                 /\ UNCHANGED <<team, role, mp, mem, tok, ac>> /\ FlushAll("CreateOrg") /\ Log(Op("CreateOrg", o, "", "", ""))
@@ -178,9 +202,9 @@ CreateTeam(g, o) == /\ team[g].st = "absent" /\ org[o] # "absent"
                     /\ team' = [team EXCEPT ![g] = [st |-> "on", org |-> o]]
                     /\ UNCHANGED <<org, role, mp, mem, tok, ac>> /\ FlushAll("CreateTeam") /\ Log(Op("CreateTeam", g, o, "", ""))
 UpdateTeam(g, en) == /\ team[g].st # "absent" /\ team' = [team EXCEPT ![g].st = en]
-                     /\ UNCHANGED <<org, role, mp, mem, tok, ac>> /\ FlushAll("UpdateTeam") /\ Log(Op("UpdateTeam", g, en, "", ""))
+                     /\ UNCHANGED <<org, role, mp, mem, tok, ac>> /\ FlushTeam("UpdateTeam", g) /\ Log(Op("UpdateTeam", g, en, "", ""))
 DeleteTeam(g) == /\ team[g].st # "absent" /\ DropTeams({g})
-                 /\ UNCHANGED <<org, tok, ac>> /\ FlushAll("DeleteTeam") /\ Log(Op("DeleteTeam", g, "", "", ""))
+                 /\ UNCHANGED <<org, tok, ac>> /\ FlushTeam("DeleteTeam", g) /\ Log(Op("DeleteTeam", g, "", "", ""))
 CreateRole(r, g, pat, ps) == /\ role[r].team = "" /\ team[g].st # "absent"
                              /\ role' = [role EXCEPT ![r] = [team |-> g, pat |-> pat, perms |-> ps]]
                              /\ UNCHANGED <<org, team, mp, mem, tok, ac>> /\ FlushAll("CreateRole")
@@ -244,7 +268,7 @@ Answer(t) ==
 CheckAll ==
     /\ phase = "check"
     /\ phase' = "mutate"
-    /\ UNCHANGED <<org, team, role, mp, mem, tok, seed, hist>>
+    /\ UNCHANGED <<org, team, role, mp, mem, tok, pending, seed, hist>>
     /\ LET ans == [t \in Tokens |-> Answer(t)] IN
        /\ obs'    = [t \in Tokens |-> [authn |-> ans[t].authn,
                                        d |-> IF ans[t].authn THEN ans[t].d ELSE [i \in 1..NReq |-> FALSE]]]
@@ -255,7 +279,7 @@ CheckAll ==
 
 Stop == phase = "mutate" /\ Len(hist) = MaxOps /\ UNCHANGED vars
 
-Next == Mutate \/ CheckAll \/ Stop
+Next == Mutate \/ (\E t \in Tokens : ExpireTokenData(t)) \/ CheckAll \/ Stop
 Spec == Init /\ [][Next]_vars
 
 -----------------------------------------------------------------------------
